@@ -1046,6 +1046,12 @@ func checkC08(w *World, r *Report) {
 	ruleBuildPipeline(w, r, "", "", "", "R08.1", "")
 	r.Rule("R08.5", 10, "the dependencies that are checked for presence are the dependencies that are injected: sibling agreement of the struct walkers (analysis vs runtime) and resolvers")
 	ruleFieldFilters(w, r, "R08.5")
+	r.Rule("R08.6", 6, "the graph has one edge per declared dependency (verbatim getters): a set is not rejected for a cycle the dependency lists do not contain")
+	r.Try(func() { ruleGraphSeesAllDependencies(w, r, "R08.6") })
+	r.Rule("R08.7", 1, "a descriptor's dependency list is the analyzer's list, unfiltered: what is injected is what is checked for presence")
+	r.Try(func() { ruleDependenciesUnfiltered(w, r, "R08.7") })
+	r.Rule("R08.8", 1, "a resolvable set is not rejected for a cycle it does not contain: the edge table and the nodes' own dependency lists describe the same edges")
+	r.Try(func() { ruleEdgesAgreeWithNodeLists(w, r, "R08.8") })
 	fi := presenceCheckFn(w)
 	if false {
 		// role: the function called from doBuild that returns ErrServiceNotFound
